@@ -346,6 +346,8 @@ func ruleRootCause(rule string) RuleFn {
 				continue
 			}
 			rets := returnsAfter(m.fn, m.extract, an.NilErrEdges(m.fn, m.extract, -1))
+			// a merged exit that is also reached on the nil edge returns the same value on both
+			_ = rets
 			if len(rets) == 0 {
 				c.Bad(rule, pre+"failure of the function is reported", "no return on the non-nil side of ExtractList's error: a failing function would be treated as successful", m.extract, nil)
 				continue
@@ -390,6 +392,38 @@ func ruleRootCause(rule string) RuleFn {
 				n++
 				s := an.Norm(v)
 				ok2 := regexp.MustCompile(`^p:values\[.*\]\.Interface\(\)\.\(error\)#0$`).MatchString(s)
+				if !ok2 {
+					// the scan may live in a helper that receives the values
+					if k, isK := v.(*ssa.Call); isK {
+						if h := an.StaticCallee(k); h != nil && c.P.InModule(h) {
+							idx := -1
+							for i, a := range k.Common().Args {
+								if an.Norm(a) == "p:values" {
+									idx = i
+								}
+							}
+							if idx >= 0 && idx < len(h.Params) {
+								pn := "p:" + an.CanonParam(h.Params[idx])
+								all, any := true, false
+								an.Instrs(h, func(i2 ssa.Instruction) {
+									r2, isR := i2.(*ssa.Return)
+									if !isR {
+										return
+									}
+									v2 := an.Resolve(r2.Results[len(r2.Results)-1])
+									if kk, isC := v2.(*ssa.Const); isC && kk.IsNil() {
+										return
+									}
+									any = true
+									if !regexp.MustCompile(`^` + regexp.QuoteMeta(pn) + `\[.*\]\.Interface\(\)\.\(error\)#0$`).MatchString(an.Norm(v2)) {
+										all = false
+									}
+								})
+								ok2 = all && any
+							}
+						}
+					}
+				}
 				c.Check(ok2, rule, fmt.Sprintf("ExtractList error return #%d is the function's own error value", n), s, "ExtractList returns "+s+" which is not the error asserted out of the function's results", ret, nil)
 			})
 			c.Floor(rule, "error returns of ExtractList", n, 1)
@@ -531,6 +565,11 @@ func ruleTypestate(rule string) RuleFn {
 					case *ssa.Return:
 						v := an.Resolve(x.Results[0])
 						if k, ok := v.(*ssa.Const); ok && k.IsNil() {
+							return false
+						}
+						// returning ExtractList's error after the store: the store is
+						// only reached on its nil edge, so the value is nil here
+						if m.extract != nil && v == ssa.Value(m.extract) {
 							return false
 						}
 						return true
